@@ -191,7 +191,8 @@ def run(
         if rc == -9:
             r.error = f"TLC timed out after {timeout}s"
         elif not (r.invariant_violated or r.deadlock):
-            r.error = "TLC failed:\n" + out[-4000:]
+            i = out.find("Error:")
+            r.error = "TLC failed:\n" + (out[i:i + 4000] if i >= 0 else out[-4000:])
     return r
 
 
